@@ -477,8 +477,9 @@ func crashEdge(sc *Scenario, ed *EdgeCtx, add func([]string, string, ...any), ad
 	// ---- state kept outside the database: a node that has been running for a while (and has executed
 	// other transactions since it started, failing ones included) must answer this block exactly like
 	// the node above, which was started from the same database content a moment ago. The long-running
-	// twin is polluted deterministically: from the parent state it executes every letter of the
-	// alphabet once (restoring the database in place after each), then the block under test.
+	// twin is polluted deterministically: from the parent state it passes every letter's transactions through
+	// CheckTx and Simulate and executes the letter once (restoring the database in place after each), then
+	// the block under test.
 	points += hiddenState(sc, ed, d0, at, raw, refTx, wantH, addD)
 
 	// stop points before Commit (after BeginBlock, after the k-th DeliverTx, after EndBlock) leave the
@@ -596,8 +597,17 @@ func hiddenState(sc *Scenario, ed *EdgeCtx, d0 map[string][]byte, at time.Time, 
 	ran := 0
 	for i := range sc.Actions {
 		a := &sc.Actions[i]
-		if a.Gov != nil || a.PrefixOnly || (a.Enabled != nil && !a.Enabled(e.M, e.Aux)) {
+		if a.PrefixOnly || (a.Enabled != nil && !a.Enabled(e.M, e.Aux)) {
 			continue
+		}
+		// what reaches a node outside blocks: the same transactions through mempool admission and gas simulation
+		if a.Txs != nil {
+			for _, tx := range a.Txs(e.M) {
+				if bz, err := e.W.Sign(BuildTx(e.W, tx)); err == nil {
+					e.W.CheckTx(bz)
+					e.W.Simulate(bz)
+				}
+			}
 		}
 		e.Run(a, false)
 		ran++
